@@ -522,7 +522,7 @@ def c14(tier, seed):
                        "transaction is taken twice and must equal the same snapshot; end/begin ticks must respect real time); the raw lock/access events are "
                        "validated against the RWMutex guards and the lockset monitor of LockCore.tla; race-detector reports are events no action admits")
     res.assumptions += ["schedules are those the Go scheduler produces under injected yields on this machine, not all schedules; exhaustive interleavings only in the Lock.tla model",
-                        "a stuck run is detected by a 60 s watchdog"]
+                        "a stuck run is detected by a watchdog (no transaction begins or ends, or one library call does not return, for 120 s)"]
     return res.finish()
 
 
